@@ -21,6 +21,9 @@ class NodeBook(FOracle):
         self.t_pull = {}    # (node, id(item)) -> (t, k)
         self.t_push = {}
         self.put_snapshot = {}   # id(entry) -> list of pallet items at the moment of the put
+        self.pull_idx = {}       # (node, id(item)) -> index in pulls[node] of the item's latest pull (its current visit)
+        self.push_of_pull = {}   # (node, pull index) -> (t, k) of the push that ended that visit (circular lines: an item
+        #                          may visit a node more than once, so visits, not items, are the unit)
         self.held = {n: 0 for n in f.nodes}      # ledger: pulled - pushed (items by count)
         self.disc_seen = {n: 0 for n in f.nodes}
 
@@ -31,12 +34,16 @@ class NodeBook(FOracle):
             N = f.edge_spec[e.edge]["dst"]
             self.pulls[N].append((e.t, e.k, e.item, self.in_idx.get((N, e.edge)), e.edge))
             self.t_pull[(N, id(e.item))] = (e.t, e.k)
+            self.pull_idx[(N, id(e.item))] = len(self.pulls[N]) - 1
             self.held[N] += 1
         elif e.op == "put":
             N = f.edge_spec[e.edge]["src"]
             snap = list(e.item.items) if isinstance(getattr(e.item, "items", None), list) else None
             self.pushes[N].append((e.t, e.k, e.item, self.out_idx.get((N, e.edge)), e.edge, snap))
             self.t_push[(N, id(e.item))] = (e.t, e.k)
+            j = self.pull_idx.get((N, id(e.item)))
+            if j is not None and (N, j) not in self.push_of_pull:
+                self.push_of_pull[(N, j)] = (e.t, e.k)
             self.held[N] -= 1
 
 
